@@ -185,6 +185,14 @@ pub(super) async fn verify_metadata(
 enum VerificationMetaError {
     #[error("cannot verify a sequencer height zero")]
     CantVerifyHeightZero,
+    #[error(
+        "requested commit for height `{requested}`, but the returned commit is for height \
+         `{returned}`"
+    )]
+    CommitForOtherHeight {
+        requested: SequencerHeight,
+        returned: SequencerHeight,
+    },
     #[error("failed fetching sequencer block commit for height {height}")]
     FetchCommit {
         height: SequencerHeight,
@@ -226,6 +234,15 @@ impl VerificationMeta {
             client.clone().get_commit(height),
             client.clone().get_validators(height),
         )?;
+        // `ensure_commit_has_quorum` ties the validator set to the commit; this ties the commit to
+        // the height the metadata claims
+        if commit_response.signed_header.commit.height != height {
+            return Err(VerificationMetaError::CommitForOtherHeight {
+                requested: height,
+                returned: commit_response.signed_header.commit.height,
+            }
+            .into());
+        }
         super::ensure_commit_has_quorum(
             &commit_response.signed_header.commit,
             &validators_response,
